@@ -13,15 +13,15 @@ type DynUniverse struct {
 	Root    string
 	Docs    map[string]string
 	Markers []string
-	Route   []string // instance route: "p:<name>" property hop, "i" item hop
+	Routes  [][]string // one instance route per entry chain: "p:<name>" property hop, "i" item hop
 	Shape   string
 	Final   string // the final $dynamicRef as written
-	NDyn    int    // resources on the chain that declare the dynamic anchor
+	NDyn    int    // resources on the chains that declare the dynamic anchor
 }
 
-func (u *DynUniverse) Wrap(v any) any {
-	for i := len(u.Route) - 1; i >= 0; i-- {
-		if name, ok := strings.CutPrefix(u.Route[i], "p:"); ok {
+func wrapRoute(route []string, v any) any {
+	for i := len(route) - 1; i >= 0; i-- {
+		if name, ok := strings.CutPrefix(route[i], "p:"); ok {
 			v = map[string]any{name: v}
 		} else {
 			v = []any{v}
@@ -30,7 +30,26 @@ func (u *DynUniverse) Wrap(v any) any {
 	return v
 }
 
-// NewDynUniverse generates one topology.
+// Wrap sends one marker per chain down its route. With two chains (a fork) the root holds the branches
+// under the properties "a" and "b" and the result is one object carrying both.
+func (u *DynUniverse) Wrap(markers ...any) any {
+	if len(u.Routes) == 1 {
+		return wrapRoute(u.Routes[0], markers[0])
+	}
+	out := map[string]any{}
+	for i, rt := range u.Routes {
+		m := markers[i%len(markers)]
+		w := wrapRoute(rt, m).(map[string]any)
+		for k, v := range w {
+			out[k] = v
+		}
+	}
+	return out
+}
+
+// NewDynUniverse generates one topology. 40% are FORKS: the root enters the resource holding the final
+// $dynamicRef along two different chains (under properties a / b), so the same $dynamicRef is evaluated
+// under two different dynamic scopes within one Validate call.
 func NewDynUniverse(r *rand.Rand) *DynUniverse {
 	u := &DynUniverse{BaseURI: "http://h/root.json", Docs: map[string]string{}}
 	n := 1 + r.IntN(5) // resources incl. the root
@@ -49,7 +68,6 @@ func NewDynUniverse(r *rand.Rand) *DynUniverse {
 		res[i] = map[string]any{"$defs": map[string]any{}}
 		if i > 0 {
 			if remote {
-				// a loader document: retrieval URI is its identity (sometimes it also says so)
 				if r.IntN(2) == 0 {
 					res[i]["$id"] = uri(i)
 				}
@@ -70,92 +88,136 @@ func NewDynUniverse(r *rand.Rand) *DynUniverse {
 		default:
 			defs["cand"] = map[string]any{"const": mk} // reachable by pointer only
 		}
-		// decoy: a dynamic anchor of another name
 		if r.IntN(4) == 0 {
 			defs["other"] = map[string]any{"$dynamicAnchor": "other", "const": "X"}
 		}
 	}
 	u.Markers = append(u.Markers, "X")
-	// chain: root first, then a random order of a random subset of the others
-	order := r.Perm(n - 1)
-	clen := 0
+	nchains := 1
+	if n >= 2 && r.IntN(10) < 4 {
+		nchains = 2
+	}
+	// the resource holding the final $dynamicRef
+	last := 0
 	if n > 1 {
-		clen = 1 + r.IntN(n-1)
+		last = 1 + r.IntN(n-1)
 	}
-	chain := []int{0}
-	for _, k := range order[:clen] {
-		chain = append(chain, k+1)
+	if nchains == 1 && n > 1 && r.IntN(4) == 0 {
+		last = 0
 	}
-	// hops
-	var shape []string
-	for ci := 0; ci < len(chain); ci++ {
-		cur := res[chain[ci]]
-		var hop map[string]any
-		if ci == len(chain)-1 {
-			// final $dynamicRef
-			last := chain[ci]
-			var forms []string
-			if kinds[last] != "none" {
-				forms = append(forms, "#node", "#node")
+	if nchains == 2 && last == 0 {
+		last = 1
+	}
+	// the final $dynamicRef, stored once under $defs/fin of the last resource (or in the root itself)
+	var forms []string
+	if kinds[last] != "none" {
+		forms = append(forms, "#node", "#node")
+	}
+	for j := 0; j < n; j++ {
+		if kinds[j] != "none" {
+			forms = append(forms, uri(j)+"#node")
+			if j != last {
+				forms = append(forms, relName(j)+"#node")
 			}
-			for j := 0; j < n; j++ {
-				if kinds[j] != "none" && (j == 0 || !remote || true) {
-					forms = append(forms, uri(j)+"#node")
-					if j != last {
-						forms = append(forms, fmt.Sprintf("%s#node", relName(j)))
-					}
-				}
-			}
-			forms = append(forms, "#/$defs/cand", uri(r.IntN(n))+"#/$defs/cand")
-			u.Final = Pick(r, forms)
-			hop = map[string]any{"$dynamicRef": u.Final}
-			shape = append(shape, "final:"+formKind(u.Final))
-		} else {
-			next := chain[ci+1]
-			target := Pick(r, []string{uri(next), relName(next)}) + "#/$defs/entry"
-			kw := "$ref"
-			if r.IntN(4) == 0 {
-				kw = "$dynamicRef" // pointer form: behaves like $ref
-			}
-			hop = map[string]any{kw: target}
-			shape = append(shape, kw)
 		}
-		// wrap the hop
-		var entry map[string]any
+	}
+	forms = append(forms, "#/$defs/cand", uri(r.IntN(n))+"#/$defs/cand")
+	u.Final = Pick(r, forms)
+	fin := map[string]any{"$dynamicRef": u.Final}
+	var shape []string
+	wrapHop := func(hop map[string]any, route *[]string) map[string]any {
 		switch r.IntN(6) {
 		case 0:
-			entry = map[string]any{"allOf": []any{hop}}
 			shape = append(shape, "allOf")
+			return map[string]any{"allOf": []any{hop}}
 		case 1:
-			entry = map[string]any{"anyOf": []any{false, hop}}
 			shape = append(shape, "anyOf")
+			return map[string]any{"anyOf": []any{false, hop}}
 		case 2:
-			entry = map[string]any{"properties": map[string]any{"h": hop}}
-			u.Route = append(u.Route, "p:h")
+			*route = append(*route, "p:h")
 			shape = append(shape, "properties")
+			return map[string]any{"properties": map[string]any{"h": hop}}
 		case 3:
-			entry = map[string]any{"items": hop}
-			u.Route = append(u.Route, "i")
+			*route = append(*route, "i")
 			shape = append(shape, "items")
-		default:
-			entry = hop
+			return map[string]any{"items": hop}
 		}
-		if ci == 0 {
-			for k, v := range entry {
-				cur[k] = v
+		return hop
+	}
+	onChain := map[int]bool{}
+	for c := 0; c < nchains; c++ {
+		suffix := string(rune('A' + c))
+		var route []string
+		if nchains == 2 {
+			route = append(route, "p:"+strings.ToLower(suffix))
+		}
+		// intermediate resources: a random subset (not root, not last) in random order
+		var mids []int
+		for _, k := range r.Perm(n) {
+			if k != 0 && k != last && r.IntN(2) == 0 {
+				mids = append(mids, k)
+			}
+		}
+		if last == 0 {
+			mids = nil // the root itself holds the final $dynamicRef
+		}
+		chain := append([]int{0}, mids...)
+		if last != 0 {
+			chain = append(chain, last)
+		}
+		for _, k := range chain {
+			onChain[k] = true
+		}
+		shape = append(shape, fmt.Sprintf("chain%s=%v", suffix, chain))
+		// hops: chain[i] -> chain[i+1]; the last element holds fin
+		var rootEntry map[string]any
+		for ci := 0; ci < len(chain); ci++ {
+			cur := res[chain[ci]]
+			var hop map[string]any
+			if ci == len(chain)-1 {
+				if chain[ci] == last && last != 0 {
+					cur["$defs"].(map[string]any)["fin"] = fin
+					break // reached through the previous hop's reference to .../$defs/fin
+				}
+				hop = fin // single-resource universe: the root itself holds the $dynamicRef
+			} else {
+				next := chain[ci+1]
+				entryName := "entry" + suffix
+				if ci+1 == len(chain)-1 {
+					entryName = "fin"
+				}
+				target := Pick(r, []string{uri(next), relName(next)}) + "#/$defs/" + entryName
+				kw := "$ref"
+				if r.IntN(4) == 0 {
+					kw = "$dynamicRef" // pointer form: behaves like $ref
+				}
+				hop = map[string]any{kw: target}
+				shape = append(shape, kw)
+			}
+			entry := wrapHop(hop, &route)
+			if ci == 0 {
+				rootEntry = entry
+			} else {
+				cur["$defs"].(map[string]any)["entry"+suffix] = entry
+			}
+		}
+		if nchains == 1 {
+			for k, v := range rootEntry {
+				res[0][k] = v
 			}
 		} else {
-			cur["$defs"].(map[string]any)["entry"] = entry
+			props, _ := res[0]["properties"].(map[string]any)
+			if props == nil {
+				props = map[string]any{}
+				res[0]["properties"] = props
+			}
+			props[strings.ToLower(suffix)] = rootEntry
 		}
-		if kinds[chain[ci]] == "dyn" {
-			u.NDyn++
-		}
+		u.Routes = append(u.Routes, route)
 	}
-	// resources off the chain still need an "entry" so that pointer refs to it never dangle
-	for i := 1; i < n; i++ {
-		defs := res[i]["$defs"].(map[string]any)
-		if _, ok := defs["entry"]; !ok {
-			defs["entry"] = true
+	for k := range onChain {
+		if kinds[k] == "dyn" {
+			u.NDyn++
 		}
 	}
 	// assemble
@@ -166,18 +228,16 @@ func NewDynUniverse(r *rand.Rand) *DynUniverse {
 	} else {
 		rootDefs := res[0]["$defs"].(map[string]any)
 		for i := 1; i < n; i++ {
-			// nest some resources inside others
 			host := rootDefs
 			if i > 1 && r.IntN(3) == 0 && !isAbsID(res[i-1]) {
 				host = res[i-1]["$defs"].(map[string]any)
-				// relative $id resolves against the host's base: keep URIs stable by using absolute ids when nested
 				res[i]["$id"] = uri(i)
 			}
 			host[fmt.Sprintf("r%d", i)] = res[i]
 		}
 	}
 	u.Root = Text(res[0])
-	u.Shape = fmt.Sprintf("n%d|remote=%v|kinds=%s|chain=%v|%s", n, remote, strings.Join(kinds, ""), chain, strings.Join(shape, ">"))
+	u.Shape = fmt.Sprintf("n%d|remote=%v|kinds=%s|chains=%d|%s|final:%s", n, remote, strings.Join(kinds, ""), nchains, strings.Join(shape, ">"), formKind(u.Final))
 	return u
 }
 
